@@ -210,7 +210,7 @@ def tpcds_inputs() -> list[dict]:
 
 def risky(g, tag: str) -> dict:
     """Shapes with several equal-rank candidates in one set."""
-    kind = g.choice(["unqualified_many", "wildcard_disjoint", "drop_rename_mix", "multi_rename", "many_tables", "many_targets", "consumption_variants", "consumption_variants", "repeated_target", "repeated_target", "anon_derived_star", "column_ring", "column_ring"])
+    kind = g.choice(["unqualified_many", "wildcard_disjoint", "drop_rename_mix", "multi_rename", "many_tables", "many_targets", "consumption_variants", "consumption_variants", "repeated_target", "repeated_target", "anon_derived_star", "column_ring", "column_ring", "cte_shapes", "cte_shapes", "cte_shapes"])
     meta = None
     dialect = g.choice(["ansi", "non-validating"])
     if kind == "unqualified_many":
@@ -246,6 +246,40 @@ def risky(g, tag: str) -> dict:
             y = g.choice([n for n in names + ["e", "f"] if n != x])
             pairs.append(f"{x} TO {y}")
         sql = ";\n".join(pre + ["RENAME TABLE " + ", ".join(pairs)])
+    elif kind == "cte_shapes":
+        # several CTEs in one statement: chains, fan-in, names that differ only in case (quoted), a reference that
+        # matches a CTE only when case is ignored.  NOT generated: a nested WITH re-using an outer CTE name, and one
+        # alias bound to different CTEs in different UNION branches - those two shapes are pinned known findings.
+        dialect = g.choice(["ansi", "ansi", "snowflake", "postgres"])
+        n = g.choice([2, 3, 4])
+        base = g.choice(["tmp", "Stage", "cte"])
+        variants = [base.lower(), base.upper(), base.capitalize(), base.lower() + "_2", base.upper() + "_3"]
+        names = g.sample(variants, n)
+        quoted = g.random() < 0.7
+        if quoted and g.random() < 0.7:
+            # two quoted names that differ only in case, and (below) a reference spelled in a third way
+            names[:2] = g.sample(variants[:3], 2)
+        names = list(dict.fromkeys(names))  # no CTE name twice
+        if not quoted:
+            # unquoted identifiers are case-insensitive: names differing only in case would be duplicate CTE names
+            seen_l, uniq = set(), []
+            for nm in names:
+                if nm.lower() not in seen_l:
+                    seen_l.add(nm.lower())
+                    uniq.append(nm)
+            names = uniq if len(uniq) >= 2 else [base.lower(), base.lower() + "_2"]
+        ctes = []
+        for i, nm in enumerate(names):
+            src = f"m.x{i}" if (i == 0 or g.random() < 0.6) else ('"%s"' % names[i - 1] if quoted else names[i - 1])
+            ctes.append((('"%s"' % nm) if quoted else nm) + f" AS (SELECT a, b{i} FROM {src})")
+        ref = g.choice(names[:2])
+        third = [v for v in variants[:3] if v not in names] or [ref.lower()]
+        ref_spelled = g.choice([third[0], third[0], ref.lower(), ref.upper(), ('"%s"' % ref)]) if quoted else g.choice([ref, ref.lower(), ref.upper()])
+        tail = f"SELECT a FROM {ref_spelled}"
+        if g.random() < 0.4:
+            other = g.choice(names)
+            tail += " UNION ALL SELECT a FROM " + (('"%s"' % other) if quoted else other)
+        sql = f"INSERT INTO m.tgt_{tag} WITH " + ", ".join(ctes) + " " + tail
     elif kind == "column_ring":
         # a directed ring of tables passing the same column on (a synchronisation loop), with feeds entering the ring
         # at different tables and consumers leaving it at different tables: path enumeration has to cope with loops
